@@ -60,3 +60,11 @@ def c02_string_alias_of_bytes(clause, case, detail):
     written (after unwrap); a string-valued alias of a bytes-like class (`TypeAliasType("P", "bytes")`) is still a reference at
     that point, so the JSON encoder / decoder is applied to the payload. marshal / unmarshal resolve the reference and work."""
     return clause in ("bytes-verbatim-encode", "bytes-verbatim-decode") and case.get("wrap") == "stralias"
+
+
+@predicate("c06_nonfinite_text_captured_by_float_member")
+def c06_nonfinite_text_captured_by_float_member(clause, case, detail):
+    """Root cause: first-acceptor union semantics on the marshal side - the float marshaller accepts text, so in Union[float, str]
+    the str value "inf" / "nan" / "Infinity" is written as the float it spells: a non-finite float, which JSON cannot carry. The
+    check establishes (case['diag']) that the value itself holds no non-finite float and does hold such a text."""
+    return clause == "json-encodable" and case.get("diag") == "nonfinite-text-captured-by-float-member"
